@@ -1,17 +1,138 @@
 /-
   C01 — SSDP messages survive the wire and decode independently of history.
-  (theorems are added below; this first version pins the generated tables)
+
+  Property theorems only (lemmas: `Lemmas/C01Wire.lean`, `Lemmas/C01Lru.lean`).  The model
+  (`Model/C01Ssdp.lean`) transcribes `ssdp.py` at byte level; the driver runs exactly these
+  functions against the implementation; `Spec/C01.lean` holds the run-time judge.
 -/
-import Upnp.Model.C01Ssdp
-import Upnp.Model.C01Lru
-import Upnp.Spec.C01
+import Upnp.Lemmas.C01Wire
+import Upnp.Lemmas.C01Lru
 import Upnp.Gen.C01Ssdp
 namespace Upnp.C01
 open Upnp
 
-/-- the literals `build_ssdp_packet` serialises with are the ones the model's `build` uses -/
+/-! ### the generated tables are the ones the model is about -/
+
+/-- the literals `build_ssdp_packet` serialises with: CRLF line ends, blank-line terminator -/
 theorem builder_literals :
-    Gen.C01Ssdp.headerSep = [COLON] ∧ Gen.C01Ssdp.lineSep = [CR, LF]
-    ∧ Gen.C01Ssdp.afterStartLine = [CR, LF] ∧ Gen.C01Ssdp.terminator = [CR, LF, CR, LF] := by decide
+    Gen.C01Ssdp.lineSep = [CR, LF] ∧ Gen.C01Ssdp.afterStartLine = [CR, LF]
+    ∧ Gen.C01Ssdp.terminator = [CR, LF, CR, LF] := by decide
+
+/-- the literal between name and value is a colon followed by blanks only -/
+theorem sep_ok : SepOk Gen.C01Ssdp.headerSep := ⟨[], by decide, by simp⟩
+
+/-- what the proofs need of a start line -/
+def startLineOk (sl : Bytes) : Bool :=
+  !sl.contains CR && !sl.contains LF && stripWs sl == sl && utf8Valid sl && !sl.isEmpty
+
+/-- every start line the gate accepts as a prefix is a clean ASCII line -/
+theorem start_lines_ok : Gen.C01Ssdp.ssdpPrefixes.all startLineOk = true := by decide
+
+/-- the `M-SEARCH` builder uses one of the three start lines -/
+theorem search_line_ok : Gen.C01Ssdp.ssdpPrefixes.contains Gen.C01Ssdp.searchRequestLine = true := by decide
+
+/-! ### the wire -/
+
+theorem startsWith_append (p r : Bytes) : startsWith (p ++ r) p = true := by
+  induction p with
+  | nil => cases r <;> rfl
+  | cons a p ih => simp [startsWith, ih]
+
+/-- a built message passes the validity gate -/
+theorem gate_build (sep sl : Bytes) (hs : List (Bytes × Bytes)) (hsl : sl ∈ Gen.C01Ssdp.ssdpPrefixes) :
+    isValidPacket Gen.C01Ssdp.ssdpPrefixes (build sep sl hs) = true := by
+  unfold isValidPacket build
+  simp only [Bool.and_eq_true, Bool.not_eq_true', List.isEmpty_eq_false_iff, List.contains_eq_mem,
+    decide_eq_true_eq, List.any_eq_true]
+  refine ⟨⟨by simp, by simp [LF]⟩, sl, hsl, startsWith_append sl _⟩
+
+/-- well-formed header list, as a proposition (the run-time judge uses the Bool `wfHeaders`) -/
+theorem wfHeaders_spec {metaKeys : List Bytes} {hs : List (Bytes × Bytes)} (h : wfHeaders metaKeys hs = true) :
+    (∀ p ∈ hs, WFPair p) ∧ (∀ p ∈ hs, reserved metaKeys (lower p.1) = false)
+    ∧ distinctCI (hs.map (·.1)) = true := by
+  simp only [wfHeaders, Bool.and_eq_true, List.all_eq_true, Bool.not_eq_true', decide_eq_true_eq] at h
+  exact ⟨fun p hp => ⟨(h.1 p hp).1.1.1, (h.1 p hp).1.1.2, (h.1 p hp).2⟩,
+         fun p hp => (h.1 p hp).1.2, h.2⟩
+
+/-- **The header parser inverts the builder**: for every start line of the three kinds and every
+    well-formed header list of ANY length, parsing the built datagram returns the start line, the
+    header list itself (same names, same values, same order) and the UDN of its USN. -/
+theorem headerParse_build (sep : Bytes) (hsep : SepOk sep) (sl : Bytes) (hsl : startLineOk sl = true)
+    (hs : List (Bytes × Bytes)) (h : ∀ p ∈ hs, WFPair p) :
+    headerParse (build sep sl hs) = .ok (hs, sl, udnOf hs) := by
+  simp only [startLineOk, Bool.and_eq_true, Bool.not_eq_true', List.contains_eq_mem,
+    decide_eq_false_iff_not, beq_iff_eq] at hsl
+  obtain ⟨⟨⟨⟨h1, h2⟩, h3⟩, h4⟩, _⟩ := hsl
+  unfold headerParse
+  rw [linesOf_build sep sl hs ⟨h1, h2⟩ (fun p hp => hdrLine_noCRLF sep hsep p (h p hp))]
+  simp only [List.headD_cons, h3, h4, List.drop_one, List.tail_cons]
+  by_cases he : hs = []
+  · subst he; simp [parseLines]
+  · simp only [he, if_false]
+    have := parseLines_build sep hsep hs h [[]]
+    simp [this]
+
+/-- **Decoding a built message** (any header count, any source address, any clock value): the
+    result is the start line and the header map `CaseInsensitiveDict({**sent, **extra})` overlaid
+    with the per-call metadata — an explicit normal form with no parser left in it. -/
+theorem decode_build_wire (sep : Bytes) (hsep : SepOk sep) (sl : Bytes) (hsl : sl ∈ Gen.C01Ssdp.ssdpPrefixes)
+    (hs : List (Bytes × Bytes)) (hwf : wfHeaders Gen.C01Ssdp.metaKeys hs = true)
+    (loc : Option Addr) (src : Addr) (now : Int) :
+    decode (build sep sl hs) loc src now
+      = .ok (sl, CIDict.combineLower (headersOf hs (udnOf hs) (withoutPort src)) (callMeta now loc src)) := by
+  have hok : startLineOk sl = true := List.all_eq_true.mp start_lines_ok sl hsl
+  unfold decode decodeCore
+  rw [headerParse_build sep hsep sl hok hs (wfHeaders_spec hwf).1]
+
+/-- the cached part of the decoder never sees the port: two sources that differ only in the port
+    share it, and the results differ exactly in the per-call metadata -/
+theorem decode_port_irrelevant (data : Bytes) (loc : Option Addr) (a b : Addr) (now : Int)
+    (h : withoutPort a = withoutPort b) :
+    (decode data loc a now).map (fun r => (r.1, decodeCore data (withoutPort a)))
+      = (decode data loc b now).map (fun r => (r.1, decodeCore data (withoutPort b))) := by
+  unfold decode; rw [h]
+  cases decodeCore data (withoutPort b) <;> rfl
+
+/-- `get_adjusted_url` is the identity unless the source is a scoped IPv6 address -/
+theorem adjust_identity (u : Bytes) (a : Addr) (h : ¬ (a.v6 = true ∧ a.scope ≠ 0)) :
+    adjustUrl u a = some u := by
+  unfold adjustUrl; simp [h]
+
+/-! ### decoding is independent of history -/
+
+/-- **`lru_cache` is transparent**: for every capacity, every pure function (failing or not) and
+    every sequence of calls — repeated and distinct keys in any order, any number of evictions —
+    the cached function returns on every call what the function itself returns. -/
+theorem lru_transparent {κ ν ε : Type} [DecidableEq κ] (f : κ → Except ε ν) (cap : Nat) (ks : List κ) :
+    Lru.run f { cap := cap, entries := [] } ks = ks.map f :=
+  Lru.run_eq _ (fun _ hp => by simp at hp) ks
+
+/-- instance for the decoder: whatever was decoded before, the cached decoder of the model returns
+    the pure `decodeCore` of its own (datagram, source-without-port) -/
+theorem decode_history_independent (cap : Nat) (calls : List (Bytes × Addr)) :
+    Lru.run (fun k : Bytes × Addr => decodeCore k.1 k.2) { cap := cap, entries := [] } calls
+      = calls.map (fun k => decodeCore k.1 k.2) :=
+  lru_transparent _ cap calls
+
+/-- non-vacuity: a concrete well-formed message with a uuid USN, a respelled name and a link-local
+    LOCATION from a scoped IPv6 source decodes (by evaluation of the model) to the expected map -/
+example :
+    let hs : List (Bytes × Bytes) :=
+      [(ofString "NT", ofString "upnp:rootdevice"), (ofString "Usn", ofString "uuid:d1::upnp:rootdevice"),
+       (ofString "LOCATION", ofString "http://[fe80::1]:80/d.xml")]
+    let src : Addr := { host := ofString "fe80::2", port := 1900, v6 := true, scope := 3 }
+    let r := decode (build Gen.C01Ssdp.headerSep (ofString "NOTIFY * HTTP/1.1") hs) none src 5
+    let get (k : String) : Option Val := match r with
+      | .ok (_, h) => CIDict.getitem lower h (ofString k)
+      | .error _ => none
+    wfHeaders Gen.C01Ssdp.metaKeys hs = true
+    ∧ r.toOption.map (·.1) = some (ofString "NOTIFY * HTTP/1.1")
+    ∧ get "usn" = some (.str (ofString "uuid:d1::upnp:rootdevice"))
+    ∧ get "location" = some (.str (ofString "http://[fe80::1%3]:80/d.xml"))
+    ∧ get "_LOCATION_ORIGINAL" = some (.str (ofString "http://[fe80::1]:80/d.xml"))
+    ∧ get "_udn" = some (.str (ofString "uuid:d1"))
+    ∧ get "_host" = some (.str (ofString "fe80::2%3"))
+    ∧ get "_Port" = some (.int 1900) := by
+  decide +kernel
 
 end Upnp.C01
